@@ -447,6 +447,11 @@ impl CredentialStore for RecStore {
             self.log.push(self.actor, mk(Err(code)));
             return Err(StatusCode::from(code));
         }
+        // a store that advertises "non-discoverable only" refuses what it says it cannot do
+        if self.disc == Disc::OnlyNonDiscoverable && options.rk {
+            self.log.push(self.actor, mk(Err(0x2B)));
+            return Err(StatusCode::from(0x2B));
+        }
         // single step after the last yield: a cancelled call either happened or did not
         let ev = mk(Ok(()));
         {
